@@ -157,6 +157,7 @@ type caseFile struct {
 	chk     string
 	shard   int
 	perFile int
+	preamble string
 	n       int
 	inFile  int
 	w       *os.File
@@ -182,7 +183,7 @@ func (cf *caseFile) open() {
 	}
 	cf.txt, _ = os.Create(filepath.Join(cf.c.Out, base+".txt"))
 	cf.files = append(cf.files, base+".v")
-	fmt.Fprintf(cf.w, "Require Import %s.\nOpen Scope N_scope.\nDefinition cases : list (%s) := [\n", cf.imports, cf.ty)
+	fmt.Fprintf(cf.w, "Require Import %s.\nOpen Scope N_scope.\n%s\nDefinition cases : list (%s) := [\n", cf.imports, cf.preamble, cf.ty)
 	cf.inFile = 0
 }
 
